@@ -56,6 +56,11 @@ def run_cmdline_property(v, family, design_cfg, replay_cfg="MC_CmdLine_replay.cf
     # 3. spec -> impl
     mm = os.path.join(WORK, f"{name}-{v.tier}-mm.ndjson")
     hooks = os.path.join(WORK, f"{name}-{v.tier}-hooks.ndjson") if ledger_every else None
+    if ledger_every:
+        # hook events are recorded for every k-th case; at most ~60 000 runs are recorded and validated per pass
+        ncases = sum(1 for _ in open(cases))
+        ledger_every = max(ledger_every, -(-ncases // 60000))
+        cov["ledger_every_kth_case"] = ledger_every
     summ = run_replay(hbin, defs_path, cases, mm, hooks=hooks, hooks_every=ledger_every or 1)
     if hooks:
         ev, runs = validate_ledger(v, hooks, cases)
